@@ -272,6 +272,9 @@ func commonName(cc *ssa.CallCommon) string {
 		if o := f.Origin(); o != nil {
 			f = o
 		}
+		if old, ok := renamed[f]; ok {
+			return old
+		}
 		if f.Object() != nil {
 			return f.Object().(*types.Func).FullName()
 		}
@@ -728,6 +731,11 @@ func (p *Prog) storesToField(f *types.Var, includeTests bool) []site {
 
 func fnName(f *ssa.Function) string {
 	s := f.String()
+	if top := topFn(f); top != nil {
+		if old, ok := renamed[top]; ok {
+			s = old + strings.TrimPrefix(s, top.String())
+		}
+	}
 	s = strings.ReplaceAll(s, modPath+"/", "")
 	s = strings.ReplaceAll(s, modPath, "piko")
 	return s
@@ -819,4 +827,57 @@ func infeasible(facts []Fact) bool {
 		}
 	}
 	return false
+}
+
+// holdsUp: pred holds for `base` with the facts at block blk of fn, or - when
+// base is (the spill cell of) a parameter of an unexported function - at every
+// non-test call site, for the argument bound to that parameter (followed at
+// most three calls up). This is what makes a guard that sits in the caller of
+// an extracted helper count for the helper's body.
+func (p *Prog) holdsUp(fn *ssa.Function, blk *ssa.BasicBlock, base ssa.Value, pred func(base ssa.Value, facts []Fact) bool, depth int) bool {
+	if pred(base, computeFacts(fn).At(blk)) {
+		return true
+	}
+	if depth >= 3 || fn.Object() == nil || fn.Object().Exported() {
+		return false
+	}
+	var pv *ssa.Parameter
+	switch x := strip(base).(type) {
+	case *ssa.Parameter:
+		pv = x
+	case *ssa.Alloc:
+		if sv, _ := singleStore(x); sv != nil {
+			pv, _ = sv.(*ssa.Parameter)
+		}
+	}
+	if pv == nil || pv.Parent() != fn {
+		return false
+	}
+	idx := -1
+	for k, pp := range fn.Params {
+		if pp == pv {
+			idx = k
+		}
+	}
+	sites := 0
+	for _, e := range p.callersOf(fn) {
+		cf := e.Caller.Func
+		if cf == nil || isTestFile(p.Fset, cf.Pos()) || e.Site == nil || !inModule(cf) {
+			continue
+		}
+		args := e.Site.Common().Args
+		if idx < 0 || idx >= len(args) {
+			return false
+		}
+		sites++
+		arg := strip(args[idx])
+		argBase := arg
+		if u, ok := arg.(*ssa.UnOp); ok && u.Op == token.MUL {
+			argBase = u.X
+		}
+		if !p.holdsUp(cf, e.Site.Block(), argBase, pred, depth+1) {
+			return false
+		}
+	}
+	return sites > 0
 }
